@@ -104,10 +104,10 @@ OPTS_Q = [(), ('amp',), ('b5',), ('nc2',), ('amp', 'ns.5'), ('thr1',), ('amp', '
 
 
 def spaces(tier, seed):
-    al = S.alphabet(6)
+    al = S.alphabet(6 if tier != 'quick' else 5)
     out = [ProductSpace('W(3,7)-edges', S.word_dims(['a', 'd', 'n'], 7) + [[()]], evaluate,
                         describe='7-letter words (bursts with edges): mirror also after recompute_edges'),
-           ProductSpace('W(6,5)xopts', S.word_dims(al, 5) + [OPTS_Q[:2]], evaluate, bounds={'letters': al}),
+           ProductSpace('W(%d,5)xopts' % len(al), S.word_dims(al, 5) + [OPTS_Q[:2]], evaluate, bounds={'letters': al}),
            ProductSpace('W(4,5)xopts', S.word_dims(S.alphabet(4), 5) + [OPTS_Q[2:]], evaluate,
                         bounds={'letters': S.alphabet(4), 'option_sets': len(OPTS_Q[2:])})]
     ne = 7 if tier == 'quick' else 9
